@@ -34,6 +34,9 @@ def apply (w : W) (k : Nat) (acts : List Act) : W :=
 def kv (tok key : String) : Option Nat :=
   if tok.startsWith (key ++ "=") then (tok.drop (key.length + 1)).toString.toNat? else none
 
+def kvs (tok key : String) : Option String :=
+  if tok.startsWith (key ++ "=") then some (tok.drop (key.length + 1)).toString else none
+
 def step' (w : W) (line : String) : W × String :=
   let toks := (line.splitOn " ").filter (· ≠ "")
   let fin (w : W) (pre : String) : W × String :=
@@ -64,7 +67,8 @@ def step' (w : W) (line : String) : W × String :=
          let willRun := s.st == 1 && s.pending.isSome
          let owner := (w.conns.find? (fun (_, sl, g) => sl == k && some g == s.cbGen)).map (·.1)
          if !willRun then ({ w with fail := none }, s!"CONFORM-FAIL hang-up processed for slot {k} although the model skips the event") else
-         let acts := if sl == "hup=full" then [Act.doEv, .detach, .doneEv, .unused, .reset, .freeable, .closeFd s.gen] else [Act.doEv, .detach, .doneEv]
+         let acts := if sl == "hup=full" then [Act.doEv, .queueHup, .detach, .doneEv, .runHup s.gen false, .unused, .reset, .freeable, .closeFd s.gen]
+                     else [Act.doEv, .queueHup, .detach, .doneEv, .runHup s.gen false]
          let w := apply w k acts
          let ran := match owner with | some id => toString id | none => "?"
          fin w s!"ok ran={ran}"
@@ -75,6 +79,45 @@ def step' (w : W) (line : String) : W × String :=
     | some k =>
       let w := apply w k [.alloc, .register]
       fin { w with conns := (toNat! id, k, (getSlot w k).gen) :: w.conns } "ok"
+  | ["gate", _] => fin w "ok"
+  -- real-Wait mode: the loop's own fetch / dispatch / free arrive as the ordinary `fetch` / `dispatch` / `endbatch` lines
+  | ["waitstart"] => fin w "ok"
+  | ["waitstop"] => fin w "ok"
+  | ["waitend"] => fin w "ok"
+  | ["waitround", _, _, _, _] => fin w "ok"
+  | ["dispatchall", l] =>
+    -- ONE handler call for the rest of the batch: items `k` (the model decides run / skip), `k:hupf` / `k:hupd` (hang-up delivered at
+    -- once: full teardown by the hang-up goroutine / operator left detached for the user's Close), `k:hupg` (delivered, its
+    -- OnDisconnect is blocked at a gate; teardown – if any – at `release`), `k:hupq` (recorded, queued BEHIND a blocked entry)
+    let items := if l == "-" then [] else l.splitOn ","
+    let (w, ran) := items.foldl (fun (acc : W × List String) it =>
+      let (w, ran) := acc
+      let (ks, tag) := match it.splitOn ":" with
+        | [a, b] => (a, b)
+        | _ => (it, "")
+      let k := toNat! ks
+      let s := getSlot w k
+      let willRun := s.st == 1 && s.pending.isSome
+      let owner := (w.conns.find? (fun (_, sl, g) => sl == k && some g == s.cbGen)).map (·.1)
+      let ranNow := if willRun then ran ++ [match owner with | some id => toString id | none => "?"] else ran
+      if tag == "" then (apply w k (if willRun then [.doEv, .doneEv] else [.doEv]), ranNow)
+      else if !willRun then ({ w with fail := some s!"hang-up processed for slot {k} although the model skips the event" }, ran)
+      else
+        let acts := match tag with
+          | "hupf" => [Act.doEv, .queueHup, .detach, .doneEv, .runHup s.gen false, .unused, .reset, .freeable, .closeFd s.gen]
+          | "hupd" => [Act.doEv, .queueHup, .detach, .doneEv, .runHup s.gen false]
+          | "hupg" => [Act.doEv, .queueHup, .detach, .doneEv, .runHup s.gen false]
+          | _ => [Act.doEv, .queueHup, .detach, .doneEv]
+        (apply w k acts, ranNow)) (w, [])
+    fin w s!"ok ran={if ran.isEmpty then "none" else "+".intercalate ran}"
+  | ["release", fl] =>
+    -- the gates open: every recorded hang-up is delivered now (whoever owns the slot by now); `full=` lists the slots whose
+    -- connection the hang-up goroutine then tore down completely
+    let w := w.slots.foldl (fun w (k, s) => apply w k (s.hupq.map fun g => Act.runHup g false)) w
+    let ks := match kvs fl "full" with
+      | some l => if l == "-" then [] else (l.splitOn ",").map toNat!
+      | none => []
+    fin (ks.foldl (fun w k => apply w k [.unused, .reset, .freeable, .closeFd (getSlot w k).gen]) w) "ok"
   | ["send", _] => fin w "ok"
   | ["drain", l] =>
     -- the harness takes every operator of the free chain; a modelled slot among them is taken like a new owner would
